@@ -131,8 +131,16 @@ def step (rs : List Res) : PyVal → Option Res
     pure (.val (.int f.rows.length))
   | _ => none
 
+/-- `append(row)` mutates one frame in place: only that register changes. -/
+def appendAt (rs : List Res) (s : Int) (row : List PyVal) : Option (List Res) := do
+  let f ← getFrame rs s
+  pure (rs.set s.toNat (.frame { f with rows := f.rows ++ [row] }))
+
 def evalProg (rs : List Res) : List PyVal → Option (List Res)
   | [] => some rs
+  | .list [.str "append", .int s, .list row] :: ops => do
+    let rs' ← appendAt rs s row
+    evalProg (rs' ++ [.val .none]) ops
   | op :: ops => do
     let r ← step rs op
     evalProg (rs ++ [r]) ops
